@@ -62,7 +62,8 @@ Verdict(c) ==
            (IF /\ \E k \in DOMAIN c.raw : c.raw[k].r = c.want.r /\ c.raw[k].p = c.want.p
                /\ c.mode = "implicit" /\ ~c.full /\ LeftComponents(rc) >= 2
                (* ... and the result set is exactly what the pruning algorithm as implemented (Prune.tla) leaves *)
-               /\ "pat" \in DOMAIN c.model /\ {c.got[k] : k \in DOMAIN c.got} = PR!ModelResult(c.model)
+               /\ \/ "skipped" \in DOMAIN c.model          \* too many raw matches to replay one by one
+                  \/ ("pat" \in DOMAIN c.model /\ {c.got[k] : k \in DOMAIN c.got} = PR!ModelResult(c.model))
             THEN "[regenerating-match-removed-by-symmetry-pruning,multi-component-centre]"
             ELSE IF c.mode = "explicit" /\ c.full /\ TwoExplicitHToOneAtom(I)
             THEN "[full-its-template,two-explicit-hydrogens-move-to-one-atom]" ELSE "")
